@@ -116,7 +116,7 @@ pub fn build_sparse(n: usize, ones: &[usize], route: u8) -> SparseVector {
             b.extend(ones.iter().copied());
             SparseVector::try_from(b).expect("SparseVector::try_from")
         }
-        3 if !ones.is_empty() && ones[ones.len() - 1] == n - 1 => SparseVector::try_from_iter(ones.iter().copied()).expect("SparseVector::try_from_iter"),
+        3 if (ones.is_empty() && n == 0) || (!ones.is_empty() && ones[ones.len() - 1] == n - 1) => SparseVector::try_from_iter(ones.iter().copied()).expect("the library refused a valid construction: SparseVector::try_from_iter on a strictly increasing (or empty) sequence"),
         4 if materialisable => SparseVector::copy_bit_vec(&plain_from_positions(n, ones)),
         5 if materialisable => SparseVector::from(plain_from_positions(n, ones)),
         6 => SparseVector::from(rl_from_positions(n, ones)),
